@@ -7,7 +7,7 @@ from flosim.gen import cfg_with
 class C08(FloCheck):
     pid = "C08"
     design_ref = "§6 C08"
-    cfg = cfg_with(p_let=0.6, naux=(1, 2), p_aux=0.35, p_caux=0.15, p_go=0.85, p_env=1.0, nframes=(2, 6), p_child=0.6, p_inactive=0.3, p_bid=0.2, nslaves=(0, 1), p_fiat=0.3)
+    cfg = cfg_with(p_let=0.6, naux=(1, 2), p_aux=0.35, p_caux=0.15, p_go=0.85, p_env=1.0, nframes=(2, 6), p_child=0.6, p_inactive=0.3, p_bid=0.2, nslaves=(0, 1), p_fiat=0.3, p_staged=0.35)
     rule = ("generated programs with 'let' guards on main, auxiliary and slave frames (incl. auxiliary first frames) and shared "
             "original auxiliaries claimed by several frames, with the guarded shares flipped by the environment history at drawn "
             "ticks before / after the framer in the same tick; whether a start / transition is admitted (guards of every frame to "
@@ -17,7 +17,7 @@ class C08(FloCheck):
             "invariant (no frame entered twice, auxiliaries included) is checked directly; non-trivial = at least one transition "
             "or start was refused; distinct = digest of per-run (status, active outline)")
     assumptions = ["'at the moment of the attempt' = before the transition's own transit / exit actions run (they may change the guarded share)"]
-    required_probes = ["guard-refused", "guard-passed", "aux-owned-elsewhere", "start-refused"]
+    required_probes = ["guard-refused", "guard-passed", "aux-owned-elsewhere", "start-refused", "readied-then-start-refused"]
 
     def invariants(self, plan, res, impl, out):
         check_bracketing(plan, impl, out)
@@ -29,6 +29,13 @@ class C08(FloCheck):
                 out.probe("start-refused")
                 out.probe("guard-refused")
                 out.nontrivial = True
+        # a slave readied while its guards held whose later start is refused (the guard changed in between)
+        state = {}
+        for e in impl:
+            if e[1] == "sent":
+                if e[3] == 1 and state.get(e[2]) == 4 and e[4] == 0:
+                    out.probe("readied-then-start-refused")
+                state[e[2]] = e[4]
         lets = set()
         for fr in plan["program"]["framers"]:
             for f in fr["frames"]:
